@@ -18,7 +18,7 @@ RULE = ('roundtrip units: random lists of 0..8 (key,value) pairs, keys non-empty
         'all three of its output modes under a step budget, plus random junk incl. lone surrogates-free Unicode. Non-trivial = '
         'the pair list has a repeated key or a character that needs escaping; distinct = distinct encoded string.')
 PYOPT = {'quick': 1, 'thorough': 1}     # one unit of every kind is also served by an interpreter started with -O (assert statements compiled out)
-REQUIRED = ['units_run_under_python_-O', 'same_request_repeated', 'params_read_before_query_and_forms', 'attribute_access_compared', 'query_replaced_after_a_first_read', 'body_consumed_before_forms', 'roundtrips_query', 'roundtrips_forms', 'roundtrips_params', 'repeated_key_cases', 'list_values_seen',
+REQUIRED = ['units_run_under_python_-O', 'fields_of_thousands_of_characters', 'same_request_repeated', 'params_read_before_query_and_forms', 'attribute_access_compared', 'query_replaced_after_a_first_read', 'body_consumed_before_forms', 'roundtrips_query', 'roundtrips_forms', 'roundtrips_params', 'repeated_key_cases', 'list_values_seen',
             'totality_strings', 'via_wsgi', 'chunked_forms']
 EXHAUSTIVE = {'quick': False, 'thorough': False,
               'quick_note': 'totality sweep is complete for all strings of length<=6 over {a,=,&,%,+,2}',
@@ -35,12 +35,17 @@ def plan(tier, seed):
         units = [{'kind': 'roundtrip', 'n': 500, 'sub': i} for i in range(8)]
         units += [{'kind': 'totality', 'maxlen': 6, 'first': c} for c in TOT]
         units += [{'kind': 'junk', 'n': 4000}]
+        units += [{'kind': 'long', 'lengths': [2 ** k + d for k in ks for d in (-1, 0, 1, 7)] + [20000 + 1111 * ks[0]]} for ks in ((8, 12), (10, 13), (11, 14), (9, 15))]
     else:
         units = [{'kind': 'roundtrip', 'n': 6000, 'sub': i} for i in range(32)]
         units += [{'kind': 'totality', 'maxlen': 8, 'first': a + b} for a in TOT for b in TOT]
         units += [{'kind': 'totality', 'maxlen': 1, 'first': ''}]
         units += [{'kind': 'junk', 'n': 40000, 'sub': i} for i in range(8)]
+        units += [{'kind': 'long', 'lengths': [2 ** k + d for d in range(-9, 10)] + [3 * 2 ** (k - 1) + d for d in (-1, 0, 1)] + [1000 * k + 17 * j for j in range(6)]} for k in range(7, 18)]
     return units
+
+
+MEMFILE = [4096]      # a urlencoded form has to fit into the in-memory budget (the framework refuses larger ones: 413)
 
 
 def model(pairs):
@@ -197,7 +202,7 @@ def one_roundtrip(ctx, app, seen, rng, pairs, exp, enc, mode, wit):
         else:
             env = make_environ('POST', '/q', stream=RecStream(body, ('rand', rng)), content_length=len(body),
                                content_type=rng.choice(['application/x-www-form-urlencoded', 'application/x-www-form-urlencoded; charset=utf-8', '']) or None)
-        rq = ombott.Request(env, config={'max_memfile_size': 4096})
+        rq = ombott.Request(env, config={'max_memfile_size': MEMFILE[0]})
         _cmp(ctx, 'Request.forms', rq.forms, exp, wit)
         ctx.count('roundtrips_forms')
         _cmp(ctx, 'Request.params', rq.params, exp, wit)
@@ -208,7 +213,7 @@ def one_roundtrip(ctx, app, seen, rng, pairs, exp, enc, mode, wit):
         fp = [(k, v) for k, v in pairs if hash(k) % 2 == 1]
         body = encode(rng, fp, 'plus').encode('ascii')
         env = make_environ('POST', '/q', qs=encode(rng, qp, 'plus'), body=body, content_type='application/x-www-form-urlencoded')
-        rq = ombott.Request(env, config={'max_memfile_size': 4096})
+        rq = ombott.Request(env, config={'max_memfile_size': MEMFILE[0]})
         union = model(qp)
         union.update(model(fp))
         if len(pairs) % 2:
@@ -250,6 +255,33 @@ def one_roundtrip(ctx, app, seen, rng, pairs, exp, enc, mode, wit):
                 return
         ctx.count('roundtrips_forms' if use_form else 'roundtrips_query')
         ctx.count('roundtrips_params')
+
+
+def long_unit(ctx, unit):
+    """Single keys and values of thousands of characters (a pasted text, a token, a serialised filter) in front of, between and
+    after short fields; the raw (still escaped) lengths are graded around the powers of two."""
+    rng = ctx.rng
+    seen = {}
+    MEMFILE[0] = 1 << 22
+    plain = 'abcxyz0189-_.~'
+    mixed = list(plain) + [' ', '&', '=', '+', '%', 'é', '日', ';']
+    for L in unit['lengths']:
+        for shape in ('value_first', 'value_middle', 'value_last', 'key_first', 'key_middle', 'two_long', 'escaped_value_first', 'escaped_key_middle'):
+            alpha = mixed if shape.startswith('escaped') else plain
+            big = ''.join(rng.choice(alpha) for _ in range(L))
+            big2 = ''.join(rng.choice(plain) for _ in range(L))
+            pairs = {'value_first': [('text', big), ('id', '7'), ('x', '')], 'value_middle': [('id', '7'), ('text', big), ('id', '8')], 'value_last': [('id', '7'), ('text', big)],
+                     'key_first': [(big, 'v'), ('id', '7')], 'key_middle': [('a', '1'), (big, ''), ('a', '2')], 'two_long': [('t', big), ('u', big2), ('t', 'short')],
+                     'escaped_value_first': [('text', big), ('id', '7'), ('text', 'again')], 'escaped_key_middle': [('a', '1'), ('k' + big, 'v'), ('id', '7')]}[shape]
+            exp = model(pairs)
+            for style in ('plus', 'pct20'):
+                enc = encode(rng, pairs, style)
+                for mode in ('query', 'forms', 'forms_chunked'):
+                    ctx.case(('long', L, shape, style, mode), nontrivial=True)
+                    ctx.count('fields_of_thousands_of_characters')
+                    wit = {'unit': {'kind': 'note', 'shape': shape, 'length_of_the_long_text': L, 'raw_length_of_the_whole_string': len(enc), 'style': style, 'read_through': mode}}
+                    one_roundtrip(ctx, None, seen, rng, pairs, exp, enc, mode, wit)
+    ctx.sample({'lengths': unit['lengths'][:12], 'shapes': 8})
 
 
 def _total_one(ctx, sc, s, parse_qsl, budget_per_char=200):
@@ -348,7 +380,9 @@ def junk_unit(ctx, unit):
 
 def run_unit(ctx, unit):
     k = unit['kind']
-    if k == 'roundtrip':
+    if k == 'long':
+        long_unit(ctx, unit)
+    elif k == 'roundtrip':
         roundtrip_unit(ctx, unit)
     elif k == 'totality':
         totality_unit(ctx, unit)
